@@ -19,7 +19,7 @@ from collections.abc import Mapping
 from vf import core, steps
 from vf.sched import controller as ctlmod
 
-OK_KINDS = ('ok', 'ok_none', 'ok_int_status')
+OK_KINDS = ('ok', 'ok_none', 'ok_int_status', 'ok_echo')
 FAIL_KINDS = ('raise', 'failed')
 MALFORMED_KINDS = ('none', 'notpair3', 'notpair0', 'int', 'badstatus',
                    'badstatus_int', 'badupdate', 'badupdate_list', 'conflict',
@@ -61,6 +61,7 @@ class Monitor:
         self.run_no = 0
         self.exec_run = {}       # name -> executions in the current run
         self.exec_total = 0
+        self.own_before = {}     # name -> its own entry when it started
         self.returned = {}       # name -> update returned by the last DONE
         self.outcomes = {}
         self.start_violations = []
@@ -131,6 +132,13 @@ class Monitor:
             if bad:
                 with self.lock:
                     self.start_violations.append(bad)
+        # what the environment held for the task itself when it started
+        try:
+            own = env[task.name]
+            self.own_before[task.name] = dict(own) if isinstance(
+                own, Mapping) else {}
+        except (KeyError, TypeError):
+            self.own_before[task.name] = {}
         self.log('start', task.name, {'exec': exec_no, 'reads': reads})
         return exec_no
 
@@ -150,6 +158,17 @@ class Monitor:
             # task's own name
             upd['extra of ' + name] = {'v': exec_no, 'n': {'m': name}}
             self.returned[name] = copy.deepcopy(upd)
+            return upd, TaskStatus.DONE
+        if kind == 'ok_echo':
+            # the update starts from the task's previous record (clocks of
+            # its previous execution included) and adds the new results
+            entry = {k: copy.deepcopy(v) for k, v in
+                     self.own_before.get(name, {}).items() if k != 'status'}
+            entry['payload'] = [name, self.run_no, exec_no]
+            if task.outdir:
+                entry['output_dir'] = task.outdir
+            upd = {name: entry}
+            self.returned[name] = {name: {'payload': entry['payload']}}
             return upd, TaskStatus.DONE
         if kind == 'ok_none':
             self.returned[name] = {}
@@ -347,9 +366,22 @@ def flat_soft(case, tasks):
     # 'soft_direct': the soft edges given task by task (case['soft'] may also
     # hold what group-level edges mean)
     direct = case.get('soft_direct', case.get('soft', {}))
+    inside = set(case.get('sgroup') or ())
+    sub = None
+    if len(inside) >= 2:
+        # some tasks sit in a sub-graph of the *soft* graph, with the soft
+        # edges between them (same edges as the flat graph once flattened)
+        sub = DepGraph()
+        for name in case['tasks']:
+            if name in inside:
+                sub.add_node(tasks[name])
+        soft.add_node(sub)
     for name in case['tasks']:
         for dep in sorted(direct.get(name, [])):
-            soft.add_dependency(tasks[name], on=tasks[dep])
+            if sub is not None and name in inside and dep in inside:
+                sub.add_dependency(tasks[name], on=tasks[dep])
+            else:
+                soft.add_dependency(tasks[name], on=tasks[dep])
     return soft
 
 
@@ -1044,6 +1076,8 @@ def gen_dag(rng, ntasks, p_hard=0.3, p_soft=0.15):
     order = names[:]
     rng.shuffle(order)
     case = {'tasks': order, 'hard': hard, 'soft': soft}
+    if ntasks >= 2 and rng.random() < 0.2:
+        case['sgroup'] = sorted(rng.sample(names, rng.randint(2, ntasks)))
     if rng.random() < 0.1:
         # task objects whose truth value is false
         case['falsy'] = rng.sample(names, rng.randint(1, min(2, ntasks)))
